@@ -67,7 +67,8 @@ def gen_cases_for(seed_, n):
                 extra = ["--merge", "exact"] if inp["merge"] == [["exact"]] else []
                 if inp["registry"] == list(gen.STR_TYPES):
                     extra += ["--datetime"]
-                ops.append({"op": "cli", "input": k, "fw": rng.choice(FWS), "flat": True, "extra": extra, "outname": f"models_{k}.py"})
+                ops.append({"op": "cli", "input": k, "fw": rng.choice(FWS), "flat": True, "extra": extra, "outname": f"models_{k}.py",
+                            "fmt": "yaml" if i % 12 == 7 else "json"})
             elif nthreads == 1 and i % 10 == 5:
                 # per-model rendering (GeneratorClass(model).generate()) from a thread that never ran generate_code
                 ops.append({"op": "direct", "input": k, "fw": rng.choice(FWS), "flat": flat})
